@@ -16,6 +16,7 @@
   correspondence run (harness/src/bin/c14.rs: a lost wake-up shows as `TIMEOUT`) can exhibit.
 -/
 import YashModel.Pipe.Progress
+import YashModel.Pipe.FdLemmas
 namespace YashModel.Pipe
 
 variable {α : Type}
@@ -291,6 +292,74 @@ theorem stages_identity (f : List α → List α) (hf : ∀ x, f x = x) (k : Nat
   | zero => rfl
   | succ m ih => simp [stages, hf, ih]
 
+/-! ### descriptor choreography: the child really is connected to the pipe, whatever is open -/
+
+/-- ★ Command substitution, child side (`subshell_body`): for every descriptor table of the shell —
+    any of 0/1/2 closed, so that the pipe ends may land on them — and whatever unused descriptors
+    `pipe()` hands out, after the child's prologue descriptor 1 refers to the writing end of the
+    pipe, no other descriptor of the child refers to the writing end, none at all to the reading
+    end, and every other descriptor is as it was. -/
+theorem cmdsubst_stdout_is_writer (t : Table) (p : Nat) (r w : Fd) (hrw : r ≠ w) (hf : t.Fresh p) :
+    ∃ t', substChild (t.pipe p r w) r w = some t' ∧
+      t' 1 = some (.pw p) ∧
+      (∀ fd, fd ≠ 1 → t' fd ≠ some (.pw p)) ∧ (∀ fd, t' fd ≠ some (.pr p)) ∧
+      (∀ fd, fd ≠ 1 → fd ≠ r → fd ≠ w → t' fd = t fd) := by
+  unfold Table.Fresh at hf
+  unfold substChild Table.pipe Table.dup2 Table.close
+  by_cases hw1 : w = 1
+  · subst hw1
+    refine ⟨_, by rw [if_neg (by simp)], ?_, ?_, ?_, ?_⟩ <;> grind [Table.set]
+  · have hwr : w ≠ r := fun h => hrw h.symm
+    simp only [ne_eq, hw1, not_false_eq_true, if_true]
+    have e : ((t.set r (some (Ent.pr p))).set w (some (Ent.pw p))).set r none w = some (.pw p) := by
+      simp [Table.set, hwr]
+    rw [e]
+    refine ⟨_, rfl, ?_, ?_, ?_, ?_⟩ <;> grind [Table.set]
+
+/-- … parent side (`expand_common`): after closing the writer the shell holds the reading end at
+    `r` and nothing else of the pipe, so end of file arrives when the child's copies are closed. -/
+theorem cmdsubst_parent_keeps_reader (t : Table) (p : Nat) (r w : Fd) (hrw : r ≠ w) (hf : t.Fresh p) :
+    substParent (t.pipe p r w) w r = some (.pr p) ∧
+      (∀ fd, fd ≠ r → substParent (t.pipe p r w) w fd ≠ some (.pr p)) ∧
+      (∀ fd, substParent (t.pipe p r w) w fd ≠ some (.pw p)) := by
+  unfold Table.Fresh at hf
+  unfold substParent Table.pipe Table.close
+  refine ⟨?_, ?_, ?_⟩ <;> grind [Table.set]
+
+/-- ★ Pipeline member (`PipeSet::move_to_stdin_stdout`): for every descriptor table in which the
+    parent's bookkeeping is accurate (`PInv`: `read_previous` is the only descriptor of the pipe `p`
+    from the previous member, `next` the only two of the pipe `q` to the next member), and whatever
+    unused descriptor `dup(STDOUT, 0)` hands out in the special case `read_previous == STDOUT`, the
+    call succeeds and afterwards: descriptor 0 is the previous pipe's reading end (if there is a
+    previous member), descriptor 1 the next pipe's writing end (if there is a next member), no other
+    descriptor refers to any end of either pipe, and other files at descriptors ≥ 2 are untouched. -/
+theorem pipeline_ends_connected (t : Table) (ps : PipeSet) (p q : Nat) (d : Fd)
+    (hi : PInv t ps p q) (hd : ∀ r w, ps.next = some (r, w) → d ≠ r → t d = none) :
+    ∃ t', ps.moveToStdinStdout t d = some t' ∧
+      (∀ rp, ps.readPrevious = some rp → t' 0 = some (.pr p)) ∧
+      (∀ r w, ps.next = some (r, w) → t' 1 = some (.pw q)) ∧
+      (∀ fd, (t' fd = some (.pr p) → fd = 0) ∧ t' fd ≠ some (.pw p) ∧
+             t' fd ≠ some (.pr q) ∧ (t' fd = some (.pw q) → fd = 1)) ∧
+      (∀ fd, 2 ≤ fd → t fd = some .file → t' fd = some .file) := by
+  have h := move_post t ps p q d hi hd
+  cases hm : ps.moveToStdinStdout t d with
+  | none => rw [hm] at h; exact h.elim
+  | some t' => rw [hm] at h; exact ⟨t', rfl, h⟩
+
+/-- ☆ … and the parent's bookkeeping *is* accurate: it holds for a fresh `PipeSet`, and `shift`
+    (close `read_previous`, close the old writer, open the next pipe on any unused descriptors, or
+    none after the last member) re-establishes it for the next member. -/
+theorem pipeline_shift_inv (t : Table) (ps : PipeSet) (p q q' : Nat)
+    (hi : PInv t ps p q) (hq' : t.Fresh q') (hqq : q ≠ q') :
+    PInv (ps.shiftClose t).2 (ps.shiftClose t).1 q q' ∧
+    ∀ r' w', r' ≠ w' → (ps.shiftClose t).2 r' = none → (ps.shiftClose t).2 w' = none →
+      PInv (ps.shiftOpen t q' r' w').2 (ps.shiftOpen t q' r' w').1 q q' :=
+  ⟨shift_close_inv t ps p q q' hi hq' hqq,
+   fun r' w' hrw hr hw => shift_open_inv t ps p q q' r' w' hi hq' hqq hrw hr hw⟩
+
+theorem pipeline_init_inv (t : Table) (p q : Nat) (hp : t.Fresh p) (hq : t.Fresh q) (hpq : p ≠ q) :
+    PInv t {} p q := pinv_init t p q hp hq hpq
+
 /-! ### non-vacuity and necessity of the hypotheses -/
 
 /-- a concrete reachable non-trivial state with the real capacity: 3000 bytes, the writer asks for
@@ -329,6 +398,32 @@ example :
     let c : Cfg := { pipeSize := 1, pipeBuf := 0 }
     let s := (Sys.init [1, 2]).run c [.w 2, .w 2, .w 2]
     (s.run c [.w 2, .w 2]).measure c = s.measure c := by
+  decide
+
+/-- the shell with descriptor 1 closed (`exec >&-`): `pipe()` gives the reading end descriptor 1;
+    the child ends up with the writing end at 1 and no reading end -/
+example :
+    let t : Table := fun fd => if fd = 0 ∨ fd = 2 then some .file else none
+    (substChild (t.pipe 7 1 3) 1 3).map (fun t' => (t' 0, t' 1, t' 2, t' 3)) =
+      some (some .file, some (.pw 7), some .file, none) := by
+  decide
+
+/-- the order in `subshell_body` matters: closing the reader *after* `dup2(writer, 1)` in that
+    state closes the new standard output (the seeded regression the check must catch) -/
+example :
+    let t : Table := fun fd => if fd = 0 ∨ fd = 2 then some .file else none
+    (((t.pipe 7 1 3).dup2 3 1).map (fun t' => ((t'.close 3).close 1) 1)) = some none := by
+  decide
+
+/-- a middle pipeline member whose `read_previous` is descriptor 1 (standard output was closed in
+    the parent, so the previous pipe's reader landed there): the special case moves it out of the
+    way first; the member ends up with 0 = previous reader, 1 = next writer, nothing else -/
+example :
+    let t : Table := fun fd => if fd = 0 ∨ fd = 2 then some .file else if fd = 1 then some (.pr 5)
+                       else if fd = 3 then some (.pr 6) else if fd = 4 then some (.pw 6) else none
+    let ps : PipeSet := { readPrevious := some 1, next := some (3, 4) }
+    (ps.moveToStdinStdout t 3).map (fun t' => (t' 0, t' 1, t' 2, t' 3, t' 4)) =
+      some (some (.pr 5), some (.pw 6), some .file, none, none) := by
   decide
 
 end YashModel.Pipe
